@@ -107,3 +107,51 @@ Definition mut_ok (c : client) : Prop := mut_safe c \/ cl_buffered c = [].
    messages of the inbox are applied *)
 Definition merge_mut_inbox (c1 : client) : client :=
   clear_inboxes (set_buffered c1 (fold_left (fun b m => buffer_insert m b) (cl_inbox_mut c1) (cl_buffered c1)) (cl_mticks c1)).
+
+(* ---------- the history argument for mutate messages ---------- *)
+
+Definition dflt_upd : update_msg := mkUpd 0 [] [] [] [].
+
+(* an update message that does not mention entity [e] *)
+Definition untouched (e : N) (u : update_msg) : Prop :=
+  ~ In e (u_despawns u) /\ ~ In e (map fst (u_removals u)) /\ ~ In e (map fst (u_changes u)).
+
+(* [applied]: the update messages the client has applied, oldest first.  Every replicated entity
+   the client holds carries a confirm history whose last tick is not below the tick of the last
+   applied message that mentioned it *)
+Definition ent_hist_ok (applied : list update_msg) (c : client) : Prop :=
+  forall e cid x, al_get e (cl_s2c c) = Some cid -> get_cent c cid = Some x -> ce_marker x = true ->
+    exists h a1 a2, ce_hist x = Some h /\ applied = a1 ++ a2 /\
+      (forall u, In u a1 -> u_tick u <= h_last h) /\ (forall u, In u a2 -> untouched e u).
+
+(* ticks of the update messages sent to a client: strictly increasing *)
+Definition ticks_incr (sent : list update_msg) : Prop :=
+  forall p q, sent = p ++ q -> forall a b, In a p -> In b q -> u_tick a < u_tick b.
+
+(* what the server guarantees about a mutate message sent to a client whose update messages are
+   [sent]: it was produced when the prefix [p] had been sent (its update tick is the tick of the
+   last message of [p]), its tick lies between the ticks of [p] and those of the later messages,
+   and every body entry only names kinds the entity has in the structure after [p] *)
+Definition mmsg_ok (sent : list update_msg) (m : mutate_msg) : Prop :=
+  small_tick (m_tick m) /\
+  exists p q, sent = p ++ q /\
+    (p <> [] -> m_upd_tick m = u_tick (last p dflt_upd)) /\
+    (forall u, In u q -> m_tick m < u_tick u) /\
+    forall e comps, In (e, comps) (m_body m) ->
+      kinds_sub (map fst comps) (kinds_of (fold_left abs_apply p []) e).
+
+(* ---------- update messages WITH pre-spawn mappings ---------- *)
+
+(* one mapping (server entity e, pre-spawned id pc) is harmless when e is unknown to the client and the
+   pre-spawned entity it designates (if alive) is neither marked nor already the image of an entity *)
+Definition map_step_ok (c : client) (e pc : N) : Prop :=
+  al_get e (cl_s2c c) = None /\
+  forall cid x, find (has_pre pc) (cl_ents c) = Some (cid, x) -> ce_alive x = true ->
+    ce_marker x = false /\ al_get cid (cl_c2s c) = None.
+
+(* ... for the mappings of a message, applied in order *)
+Fixpoint maps_ok (c : client) (maps : list (N * N)) : Prop :=
+  match maps with
+  | [] => True
+  | (e, pc) :: t => map_step_ok c e pc /\ maps_ok (apply_entity_mapping c e pc) t
+  end.
